@@ -96,7 +96,7 @@ def reduce_facts(facts, R, b):
     return out, lookup
 
 
-SPAN_CLASS = {'O': 'the empty span (0, 0)', 'E': 'a zero-length span at the end of the last entry', 'Z': 'a zero-length span',
+SPAN_CLASS = {'Fs': 'start of the first popped entry that derived something .. end of the last entry, without the fallback for "none derived anything"', 'O': 'the empty span (0, 0)', 'E': 'a zero-length span at the end of the last entry', 'Z': 'a zero-length span',
               'F': 'first popped entry that derived something (else the end of the last entry) .. end of the last entry',
               'P': 'first popped entry .. end of the last entry'}
 
@@ -149,11 +149,14 @@ def classify_span(facts, b, spt):
                 return bool(ps_) and all(p_.end[0] == 'return' and is_call(strip_ref(p_.end[1]), 'end') and term_has(p_.end[1], lambda y: y == ('param', 2)) for p_ in ps_)
         return False
 
-    def first_nonempty(t):
-        # map_or / unwrap_or over find(<the entries from pop_idx - 1 on>, |s| !s.is_empty()) with the END of the last entry as fallback
+    def first_nonempty(t, forked=False):
+        # map_or / unwrap_or over find(<the entries from pop_idx - 1 on>, |s| !s.is_empty()) with the END of the last entry as fallback;
+        # forked: the same after the Walker has split the combinator into its two cases - start(payload of that find)
         t = strip_ref(t)
         fs = [x for x in subterms(t) if is_call(x, 'find')]
         if not fs:
+            return False
+        if forked and not (is_call(t, 'start') and t[2] and strip_proj(strip_ref(t[2][0])) == fs[0]):
             return False
         sl = [x for x in subterms(fs[0]) if is_call(x, 'index') and len(x[2]) == 2 and canon(b, x[2][0]) == ('role', 'SPANS')
               and isinstance(x[2][1], tuple) and x[2][1] and x[2][1][0] == 'variant' and x[2][1][3] == 'RangeFrom']
@@ -167,7 +170,7 @@ def classify_span(facts, b, spt):
         takes_start = has_call(t, 'start') or any(cb.calls_named('start') for cb in clos)
         if not pred or not takes_start:
             return False
-        return term_has(t, lambda x: x == strip_ref(d))
+        return forked or term_has(t, lambda x: x == strip_ref(d))
 
     if a == d:
         if a == ('const', 0):
@@ -175,6 +178,8 @@ def classify_span(facts, b, spt):
         return ('E' if end_of_last(d) else 'Z'), ''
     if first_nonempty(a) and end_of_last(d):
         return 'F', ''
+    if first_nonempty(a, forked=True) and end_of_last(d):
+        return 'Fs', ''
     if is_pop_first(entry(a, 'start')) and end_of_last(d):
         return 'P', ''
     return None, ('the span is neither (start of the first popped entry that derived something, end of the last entry) nor zero-length: %s - '
@@ -287,6 +292,14 @@ def r81_82_83(facts, res):
                 k7 = 'span-shape:%s#%d' % (name, len([i for i in res.instances if i['key'].startswith('R8.7:span-shape:%s' % name)]))
                 cls, why = classify_span(facts, b, args[2])
                 sits = span_situations(b, p)
+                # the two halves of F after the Walker split `find(..).map_or(end, |s| s.start())`: found -> start of it; not found -> end
+                found = [v for c, v in p.conds if c[0] == 'discr' and is_call(strip_ref(c[1]), 'find') and isinstance(v, int)
+                         and classify_span(facts, b, ('call', 'Span::new', (('call', 'Span::start', (('field', ('downcast', strip_ref(c[1]), 1, 'Some'), 0, '0'),)), strip_ref(args[2])[2][1])))[0] == 'Fs'] \
+                    if is_call(strip_ref(args[2]), 'new') and len(strip_ref(args[2])[2]) == 2 else []
+                if cls == 'Fs' and found == [1]:
+                    cls = 'F'
+                elif cls == 'E' and found == [0] and sits <= {'S1', 'S2'}:
+                    cls = 'F'
                 want = {'S0': {'O'}, 'S1': {'F'}, 'S2': {'E', 'F'}}     # F with nothing left to search falls back to the end of the last entry
                 wrong = sorted(st for st in sits if cls not in want[st])
                 if cls == 'P':
